@@ -38,9 +38,10 @@ PROP = {
              "real AfterUndelegationStarted hook places a hold + 1 plain operator; 2-4 fresh stakers; 2 LST assets): deposit, withdraw, delegate, "
              "undelegate (amount aimed at position / position+-1 / 1 / 0 / -1 / random / primes), genesis-loaded pending undelegation with completion "
              "height = now, now+1, 16*now+k, 256*now+k (hex(now) is a proper prefix of hex(completion)), now-1 (rejected), operator slash with the "
-             "event height around now, hold increment/decrement on live record keys, 1..11 delegation EndBlocks; start height from "
+             "event height around now, hold increment/decrement on live record keys, native-restaking balance adjustments (UpdateNSTBalance: decreases sized to end in the withdrawable "
+             "balance / inside the pending undelegations / in the delegated shares; increases capped at earlier decreases), 1..11 delegation EndBlocks; start height from "
              "{1,2,3,9,15,16,17,255,256,4095,10^6}; nonces and tx hashes unique per case except in the directed tagged scenarios (which come first and "
-             "reproduce the known findings: opt-out-before-activation (real OptInWithConsKey + OptOut), 3 index collisions, deep-slash acceptance); the prefix-scan "
+             "reproduce the known findings: 3 index collisions, deep-slash acceptance; plus the regression scenario of the repaired opt-out-before-activation defect and an NST scenario); the prefix-scan "
              "scenarios (record completing at 0x13 loaded at height 1, ...) are untagged and "
              "must pass. distinct = sha1 of the case; non-trivial = at least two different op kinds changed the stores"),
     "explanation": ("Coq theorems about the executable key-string-level model of the undelegation life cycle (Ledger/Ledger.v) for ALL histories: "
@@ -60,7 +61,7 @@ PROP = {
         "SlashExecutionInfo; it belongs to C04/C05",
         "entry points run in a cache context committed on success only (message-server mode); precompile partial-write mode belongs to C09",
         "not modelled: native-token (bank escrow) branch, NST deposits, staker-operator association (stakers in the generated histories have no associated operator), "
-        "operator lifecycle beyond {plain, active validator, opted out before activation} (the latter makes the dogfood hook panic; an entry '!op' of the case's validator list)",
+        "operator lifecycle beyond {plain, active validator}; UpdateNSTBalance is modelled and correspondence-checked but outside the theorems (wf_op)",
     ],
     "assumptions": [
         "identifiers (staker ids, asset ids, operator addresses, tx hashes) contain no '/' (fixed-format hex / bech32 strings)",
